@@ -212,3 +212,46 @@ func RunBCase(c *BCase, dir string) error {
 	c.Final = get()
 	return nil
 }
+
+// FirstOutOfContract replays the calls on the documented POSIX semantics (size and position only)
+// and returns the index of the first call outside sif.Buffer's contract (Backends.in_contract):
+// an empty positioned read, an empty write beyond the end, an invalid whence, an upward
+// truncation. len(calls) when every call is inside.
+func FirstOutOfContract(initLen int, calls []BCall) int {
+	size, pos := int64(initLen), int64(0)
+	for i, c := range calls {
+		switch c.Kind {
+		case "read":
+			if c.N <= 0 {
+				return i
+			}
+		case "write":
+			if len(c.Data) == 0 {
+				if pos > size {
+					return i
+				}
+				continue
+			}
+			if end := pos + int64(len(c.Data)); end > size {
+				size = end
+			}
+			pos += int64(len(c.Data))
+		case "seek":
+			if c.Whence < 0 || c.Whence > 2 {
+				return i
+			}
+			base := []int64{0, pos, size}[c.Whence]
+			if base+c.Off >= 0 {
+				pos = base + c.Off
+			}
+		default:
+			if c.Off > size {
+				return i
+			}
+			if c.Off >= 0 {
+				size = c.Off
+			}
+		}
+	}
+	return len(calls)
+}
